@@ -39,6 +39,10 @@ CLAIMS = {
             "arguments: one schema per callable (all 32 on value, 17 under length and under dtype) over fan-out paths through a "
             "document with leaves of every type, plus cast schemas over keys of every type, list indices, fan-out, nesting and "
             "the empty path with convertible and unconvertible cast strings", "3 C07"),
+    "C15": ("cast_data equals, type-exactly, the document with exactly the castable selected nodes replaced (expected conversions from "
+            "an independent table) for every value of the symbolic non-castable leaves, thresholds, list index and key, per path shape "
+            "(keys of every type, list indices, fan-out, nesting, empty/missing path); caller's document unchanged; verdicts judged on "
+            "the cast values", "3 C15"),
     "C14": ("equality laws (reflexive/symmetric/transitive, rebuilt and commuted copies equal) and 'equal implies same "
             "behaviour' decided for every value of the differing atom (key, index, argument, label) and of the probe "
             "document's leaves, per term kind", "3 C14"),
